@@ -1,7 +1,7 @@
 (** SimpProofs.v — soundness of the simplifier model Simp.v (C05): every rewrite preserves width and value.
     Part 1: algebra of the n-ary operators modulo 2^w, permutations (canonize), flattening. *)
 From Coq Require Import ZArith List Bool String Lia Permutation.
-From Mx Require Import ModInt ModIntProofs Expr ExprProofs Simp SliceLemmas.
+From Mx Require Import ModInt ModIntProofs Expr ExprProofs Simp SliceLemmas ComposeProofs.
 Import ListNotations.
 Open Scope list_scope.
 Open Scope Z_scope.
@@ -122,8 +122,26 @@ Definition op_ok (op : string) (args : list expr) : bool :=
   | a :: _ => frag_op op && args_ok op (size a) args &&
               match opk_of op with OSub => (Nat.leb (List.length args) 2) | OEq => Nat.eqb (List.length args) 2 | OParity => Nat.eqb (List.length args) 1 | _ => true end
   end.
+(** concatenations: non-empty; every slot non-empty inside [0, 64]; a constant piece at least as wide as its slot, any other piece exactly
+    as wide; starts pairwise distinct, one of them 0, no two slots overlap.  [ac] switches concatenations on or off (the theorems about eval_expr and
+    idempotence are stated for the concatenation-free fragment). *)
+Fixpoint nodupZ (l : list Z) : bool := match l with [] => true | x :: r => negb (existsb (Z.eqb x) r) && nodupZ r end.
+Definition piece_shape (e : expr) (lo hi : Z) : bool := match e with EInt _ w _ => hi - lo <=? w | _ => size e =? hi - lo end.
+Definition slot_geom (s : slot) : bool :=
+  (0 <=? slot_lo s) && (slot_lo s <? slot_hi s) && (slot_hi s <=? 64) && piece_shape (slot_e s) (slot_lo s) (slot_hi s).
+Definition slots_ok (slots : list slot) : bool :=
+  negb (match slots with [] => true | _ => false end) && forallb slot_geom slots && nodupZ (map slot_lo slots) && existsb (fun s => slot_lo s =? 0) slots && pdisj slots.
+Lemma nodupZ_spec l : nodupZ l = true <-> NoDup l.
+Proof.
+  induction l as [|x r IH]; simpl; [split; [constructor | reflexivity]|]. rewrite andb_true_iff, negb_true_iff, IH. split.
+  - intros [N D]. constructor; [|exact D]. intros I. assert (E : existsb (Z.eqb x) r = true) by (apply existsb_exists; exists x; split; [exact I | apply Z.eqb_refl]). congruence.
+  - intros H. inversion H as [|? ? N D]; subst. split; [|exact D]. destruct (existsb (Z.eqb x) r) eqn:E; [|reflexivity]. apply existsb_exists in E as (y & Iy & Q). apply Z.eqb_eq in Q. subst y. contradiction.
+Qed.
+Lemma piece_shape_alt e lo hi : piece_shape e lo hi = if is_int e then hi - lo <=? size e else size e =? hi - lo.
+Proof. destruct e; reflexivity. Qed.
 (** [Q name width is_reg is_term]: an arbitrary predicate every identifier of the tree satisfies (the simplifier never invents identifiers, so it is preserved) *)
 Section IdPred.
+Variable ac : bool.
 Variable IdQ : string -> Z -> bool -> bool -> bool.
 Fixpoint wf (e : expr) : bool :=
   match e with
@@ -133,6 +151,7 @@ Fixpoint wf (e : expr) : bool :=
   | ESlice e1 lo hi => wf e1 && (0 <=? lo) && (lo <? hi) && (hi <=? size e1)
   | EOp op args => forallb wf args && op_ok op args
   | ECond c a b => wf c && wf a && wf b && (size a =? size b)
+  | ECompose slots => ac && forallb (fun s => wf (slot_e s)) slots && slots_ok slots
   | _ => false
   end.
 
@@ -170,9 +189,50 @@ Section Sound.
   Proof. intros H. unfold args_ok. rewrite H. reflexivity. Qed.
 
   (** width is positive and the value is in range *)
+  (** ** what well-formedness says about a concatenation *)
+  Lemma wf_compose_inv l : wf (ECompose l) = true ->
+    ac = true /\ l <> [] /\ (forall s, In s l -> wf (slot_e s) = true /\ 0 <= slot_lo s /\ slot_lo s < slot_hi s /\ slot_hi s <= 64 /\ piece_shape (slot_e s) (slot_lo s) (slot_hi s) = true) /\
+    NoDup (map slot_lo l) /\ (exists a, In a l /\ slot_lo a = 0) /\ forall i, occ l i <= 1.
+  Proof.
+    cbn [wf]. intros W. apply andb_true_iff in W as [W O]. apply andb_true_iff in W as [A Wp]. unfold slots_ok in O.
+    apply andb_true_iff in O as [O Pd]. apply andb_true_iff in O as [O Ex]. apply andb_true_iff in O as [O Nd]. apply andb_true_iff in O as [Ne Ge].
+    split; [exact A|]. split; [destruct l; [discriminate | discriminate]|]. split; [|split; [apply nodupZ_spec; exact Nd|split; [|apply pdisj_occ; exact Pd]]].
+    - intros s Hs. rewrite forallb_forall in Wp, Ge. specialize (Wp s Hs). specialize (Ge s Hs). unfold slot_geom in Ge.
+      apply andb_true_iff in Ge as [Ge Sh]. apply andb_true_iff in Ge as [Ge H3]. apply andb_true_iff in Ge as [H1 H2].
+      apply Z.leb_le in H1, H3. apply Z.ltb_lt in H2. auto.
+    - apply existsb_exists in Ex as (a & Ia & Z0). apply Z.eqb_eq in Z0. exists a. auto.
+  Qed.
+  Lemma wf_compose_size l : wf (ECompose l) = true -> size (ECompose l) = maxhi l /\ 0 < maxhi l /\ maxhi l <= 64.
+  Proof.
+    intros W. destruct (wf_compose_inv l W) as (_ & Ne & Hs & _ & Ex & _). destruct l as [|s0 r]; [contradiction|].
+    destruct (compose_size s0 r) as [E P]; [intros a Ha; destruct (Hs a Ha) as (_ & A1 & A2 & _); lia | exact Ex|].
+    split; [exact E|]. split; [exact P|]. unfold maxhi. destruct (fold_max_in (s0 :: r) 0) as [Q|(a & Ha & Q)]; [unfold maxhi in P; lia|].
+    rewrite Q. destruct (Hs a Ha) as (_ & _ & _ & A3 & _). exact A3.
+  Qed.
+  Lemma wf_range_compose l : wf (ECompose l) = true -> 0 < size (ECompose l) /\ 0 <= ev (ECompose l) < 2 ^ size (ECompose l).
+  Proof.
+    intros W. destruct (wf_compose_size l W) as (E & P & L). rewrite E. split; [exact P|]. rewrite eval_compose_V. apply V_range; [lia|].
+    intros a Ha. destruct (wf_compose_inv l W) as (_ & _ & Hs & _). destruct (Hs a Ha) as (_ & A1 & A2 & _). split; [exact A1|]. split; [lia|].
+    apply (proj2 (fold_max_ge l 0)). exact Ha.
+  Qed.
+
+  Lemma wf_compose_intro l : ac = true -> l <> [] ->
+    (forall s, In s l -> wf (slot_e s) = true /\ 0 <= slot_lo s /\ slot_lo s < slot_hi s /\ slot_hi s <= 64 /\ piece_shape (slot_e s) (slot_lo s) (slot_hi s) = true) ->
+    NoDup (map slot_lo l) -> (exists a, In a l /\ slot_lo a = 0) -> (forall i, occ l i <= 1) -> wf (ECompose l) = true.
+  Proof.
+    intros A Ne Hs Nd (a & Ia & Z0) Oc. cbn [wf]. rewrite A. cbn [andb]. apply andb_true_iff. split; [apply forallb_forall; intros s Is; apply (Hs s Is)|].
+    unfold slots_ok. repeat (apply andb_true_iff; split).
+    - destruct l; [contradiction | reflexivity].
+    - apply forallb_forall. intros s Is. destruct (Hs s Is) as (_ & A1 & A2 & A3 & A4). unfold slot_geom. rewrite A4.
+      repeat (apply andb_true_iff; split); try reflexivity; [apply Z.leb_le | apply Z.ltb_lt | apply Z.leb_le]; assumption.
+    - apply nodupZ_spec. exact Nd.
+    - apply existsb_exists. exists a. split; [exact Ia | apply Z.eqb_eq; exact Z0].
+    - apply occ_pdisj; [intros b Ib; apply (Hs b Ib) | exact Oc].
+  Qed.
+
   Lemma wf_range : forall e, wf e = true -> 0 < size e /\ 0 <= ev e < 2 ^ size e.
   Proof.
-    induction e using expr_ind'; simpl; intros W; try discriminate.
+    induction e using expr_ind'; try (intros W; apply wf_range_compose; exact W); simpl; intros W; try discriminate.
     - apply andb_true_iff in W as [W V2]. apply andb_true_iff in W as [W V1]. apply andb_true_iff in W as [Sg Ww]. apply andb_true_iff in Ww as [W1 W2]. apply Z.ltb_lt in W1. split; [assumption | apply wrap_rng; lia].
     - apply andb_true_iff in W as [W _]. apply andb_true_iff in W as [W _]. apply Z.ltb_lt in W. split; [assumption | apply wrap_rng; lia].
     - apply andb_true_iff in W as [W _]. apply andb_true_iff in W as [_ W]. apply andb_true_iff in W as [W _]. apply Z.ltb_lt in W. split; [assumption | unfold mem_read; apply wrap_rng; lia].
@@ -191,7 +251,7 @@ Section Sound.
   (** every width is at most 64 *)
   Lemma wf_size_le : forall e, wf e = true -> size e <= 64.
   Proof.
-    induction e using expr_ind'; simpl; intros W; try discriminate.
+    induction e using expr_ind'; try (intros W; destruct (wf_compose_size _ W) as (E & _ & L); rewrite E; exact L); simpl; intros W; try discriminate.
     - apply andb_true_iff in W as [W V2]. apply andb_true_iff in W as [W V1]. apply andb_true_iff in W as [Sg Ww]. apply andb_true_iff in Ww as [W1 W2]. apply Z.leb_le in W2. exact W2.
     - apply andb_true_iff in W as [W _]. apply andb_true_iff in W as [_ W]. apply Z.leb_le in W. exact W.
     - apply andb_true_iff in W as [W _]. apply andb_true_iff in W as [_ W]. apply andb_true_iff in W as [_ W]. apply Z.leb_le in W. exact W.
@@ -1029,7 +1089,7 @@ Section Sound.
     unfold simp_slice in H. destruct ((lo =? 0) && (hi =? size a)) eqn:Full.
     { inversion H; subst e'. apply andb_true_iff in Full as [F1 F2]. apply Z.eqb_eq in F1, F2. subst lo hi.
       split; [exact Wa|]. split; [simpl; lia|]. rewrite ev_slice. symmetry. apply slice_full. exact Ra. }
-    destruct a as [sg w v| |addr w sgm| | |a2 lo2 hi2| |]; try (simpl in Wa; discriminate); try (inversion H; subst e'; apply good_refl; exact W).
+    destruct a as [sg w v| |addr w sgm| | |a2 lo2 hi2|slots|]; try (simpl in Wa; discriminate); try (inversion H; subst e'; apply good_refl; exact W).
     - (* constant *)
       destruct (std_width (hi - lo)) eqn:Sw; [|inversion H; subst e'; apply good_refl; exact W]. inversion H; subst e'. clear H.
       destruct (wf_int_inv _ _ _ Wa) as (-> & Pw & Rv & Ev). simpl in Lhs.
@@ -1052,11 +1112,81 @@ Section Sound.
       + simpl. rewrite Wa2. cbn [andb]. apply andb_true_iff. split; [apply andb_true_iff; split; [apply Z.leb_le; lia | apply Z.ltb_lt; lia] | apply Z.leb_le; lia].
       + simpl. lia.
       + rewrite !ev_slice. symmetry. apply slice_slice; lia.
+    - (* slice of a concatenation: the slot containing the range *)
+      destruct (find (fun s => (slot_lo s <=? lo) && (slot_hi s >=? hi)) slots) as [s|] eqn:Fd; [|inversion H; subst e'; apply good_refl; exact W].
+      inversion H; subst e'. clear H. apply find_some in Fd as [Is Cs]. apply andb_true_iff in Cs as [C1 C2]. apply Z.leb_le in C1. apply Z.geb_le in C2.
+      destruct (wf_compose_inv slots Wa) as (_ & _ & Hs & _ & _ & Oc). destruct (Hs s Is) as (Ws & A1 & A2 & A3 & A4).
+      destruct (wf_range (slot_e s) Ws) as [Ps Rs].
+      assert (Sz : slot_hi s - slot_lo s <= size (slot_e s)).
+      { unfold piece_shape in A4. destruct (slot_e s); try (apply Z.eqb_eq in A4; lia). apply Z.leb_le in A4. simpl. lia. }
+      unfold getitem. set (n := size (slot_e s)) in *.
+      assert (K1 : clip (lo - slot_lo s) n = lo - slot_lo s) by (unfold clip; destruct (Z.ltb_spec (lo - slot_lo s) 0); [lia | apply Z.min_l; lia]).
+      assert (K2 : clip (hi - slot_lo s) n = hi - slot_lo s) by (unfold clip; destruct (Z.ltb_spec (hi - slot_lo s) 0); [lia | apply Z.min_l; lia]).
+      rewrite K1, K2. split; [|split].
+      + simpl. rewrite Ws. cbn [andb]. apply andb_true_iff. split; [apply andb_true_iff; split; [apply Z.leb_le; lia | apply Z.ltb_lt; lia] | apply Z.leb_le; fold n; lia].
+      + simpl. lia.
+      + rewrite !ev_slice. replace (hi - slot_lo s - (lo - slot_lo s)) with (hi - lo) by lia. apply wrap_eq_bits; [lia|]. intros k Hk.
+        rewrite !Z.shiftr_spec by lia. rewrite eval_compose_V.
+        rewrite (V_bit_unique rho mu iota slots s (k + lo)) by (try lia; try assumption; intros a Ia; destruct (Hs a Ia) as (_ & B1 & B2 & _); lia).
+        unfold sval. rewrite fld_bits by lia.
+        replace (slot_lo s <=? k + lo) with true by (symmetry; apply Z.leb_le; lia). replace (k + lo <? slot_hi s) with true by (symmetry; apply Z.ltb_lt; lia).
+        cbn [andb]. f_equal. lia.
+  Qed.
+
+  (** ** concatenations *)
+  Lemma piece_in_ok n s : wf (slot_e s) = true -> 0 <= slot_lo s -> slot_lo s < slot_hi s -> slot_hi s <= n -> piece_shape (slot_e s) (slot_lo s) (slot_hi s) = true ->
+    in_piece_ok n s.
+  Proof.
+    intros Ws A1 A2 A3 A4. unfold in_piece_ok. repeat split; try assumption. unfold piece_shape in A4.
+    destruct (slot_e s) as [sg w v| | | | |src slo shi| |] eqn:E; try exact I.
+    - destruct (wf_int_inv _ _ _ Ws) as (-> & _ & Rv & _). apply Z.leb_le in A4. repeat split; try lia.
+    - apply Z.eqb_eq in A4. simpl in A4. destruct (wf_slice_inv _ _ _ Ws) as (_ & B1 & _). split; lia.
+  Qed.
+
+  Theorem simp_compose_good args e' : wf (ECompose args) = true -> simp_compose (ECompose args) args = Ok e' -> good (ECompose args) e'.
+  Proof.
+    intros W H. destruct (wf_compose_inv args W) as (A & Ne & Hs & Nd & (a0 & Ia0 & Z0) & Oc). destruct (wf_compose_size args W) as (Esz & Pn & Ln).
+    unfold simp_compose in H. destruct (merge_sliceto_slice args) as [m| |] eqn:Hm; try discriminate. cbn [bind] in H.
+    assert (Fin : Forall (in_piece_ok (maxhi args)) args).
+    { apply Forall_forall. intros s Is. destruct (Hs s Is) as (Ws & A1 & A2 & A3 & A4). apply piece_in_ok; try assumption. apply (proj2 (fold_max_ge args 0)). exact Is. }
+    destruct (merge_spec rho mu iota args m (maxhi args) eq_refl Pn Ln Nd Fin Hm) as (M1 & M2 & M3 & M4 & M5).
+    (* every slot of the result is well formed *)
+    assert (Hm_ok : forall s, In s m -> wf (slot_e s) = true /\ 0 <= slot_lo s /\ slot_lo s < slot_hi s /\ slot_hi s <= maxhi args /\ piece_shape (slot_e s) (slot_lo s) (slot_hi s) = true /\
+                                 (slot_lo s = 0 -> slot_hi s = maxhi args -> size (slot_e s) = maxhi args)).
+    { intros s Is. rewrite Forall_forall in M3. destruct (M3 s Is) as [[Ia Oth]|[(v & Ee & Rv & B1 & B2 & B3)|(src & slo0 & shi & a' & Ee & B0 & B1 & B2 & B3 & B4 & a1 & Ia1 & Ea1)]].
+      - destruct (Hs s Ia) as (Ws & A1 & A2 & A3 & A4). repeat split; try assumption; [apply (proj2 (fold_max_ge args 0)); exact Ia|].
+        intros L0 Hh. unfold piece_shape in A4. unfold is_other in Oth. destruct (slot_e s); try contradiction; apply Z.eqb_eq in A4; lia.
+      - rewrite Ee. assert (R2 : 0 <= v < 2 ^ maxhi args) by (split; [lia|]; apply Z.lt_le_trans with (2 ^ (slot_hi s - slot_lo s)); [lia | apply Z.pow_le_mono_r; lia]).
+        split; [simpl; repeat (apply andb_true_iff; split); [apply Z.ltb_lt | apply Z.leb_le | apply Z.leb_le | apply Z.ltb_lt]; lia|].
+        split; [lia|]. split; [lia|]. split; [lia|]. split; [unfold piece_shape; apply Z.leb_le; lia|]. intros _ _. reflexivity.
+      - rewrite Ee. destruct (Hs a1 Ia1) as (Wa1 & _). rewrite Ea1 in Wa1. destruct (wf_slice_inv _ _ _ Wa1) as (Wsrc & _ & _ & Le).
+        split; [simpl; rewrite Wsrc; cbn [andb]; apply andb_true_iff; split; [apply andb_true_iff; split; [apply Z.leb_le | apply Z.ltb_lt] | apply Z.leb_le]; lia|].
+        split; [lia|]. split; [lia|]. split; [lia|]. split; [unfold piece_shape; apply Z.eqb_eq; simpl; lia|]. intros L0 Hh. simpl. lia. }
+    assert (Mne : m <> []).
+    { rewrite Forall_forall in M4. destruct (M4 a0 Ia0) as (s & Is & _). intros E. subst m. contradiction. }
+    assert (Wm : wf (ECompose m) = true).
+    { apply wf_compose_intro; try assumption.
+      - intros s Is. destruct (Hm_ok s Is) as (B1 & B2 & B3 & B4 & B5 & _). repeat split; try assumption. lia.
+      - rewrite Forall_forall in M4. destruct (M4 a0 Ia0) as (s & Is & L1 & _). exists s. split; [exact Is|]. destruct (Hm_ok s Is) as (_ & B2 & _). lia.
+      - intros i. rewrite M5. apply Oc. }
+    assert (Em : maxhi m = maxhi args).
+    { apply Z.le_antisymm.
+      - unfold maxhi at 1. destruct (fold_max_in m 0) as [Q|(s & Is & Q)]; [rewrite Q; lia|]. rewrite Q. apply (Hm_ok s Is).
+      - unfold maxhi at 1. destruct (fold_max_in args 0) as [Q|(a & Ia & Q)]; [unfold maxhi in Pn; lia|]. rewrite Q.
+        rewrite Forall_forall in M4. destruct (M4 a Ia) as (s & Is & _ & L2). pose proof (proj2 (fold_max_ge m 0) s Is). unfold maxhi. lia. }
+    assert (Gm : good (ECompose args) (ECompose m)).
+    { split; [exact Wm|]. split; [rewrite (proj1 (wf_compose_size m Wm)), Esz; exact Em|]. rewrite !eval_compose_V. exact M1. }
+    destruct m as [|s [|s2 m']]; try (inversion H; subst e'; exact Gm).
+    destruct ((slot_lo s =? 0) && (slot_hi s =? size (ECompose args))) eqn:Q; [|inversion H; subst e'; exact Gm]. inversion H; subst e'. clear H.
+    apply andb_true_iff in Q as [Q1 Q2]. apply Z.eqb_eq in Q1, Q2. rewrite Esz in Q2.
+    destruct (Hm_ok s (or_introl eq_refl)) as (B1 & B2 & B3 & B4 & B5 & B6). specialize (B6 Q1 Q2).
+    split; [exact B1|]. split; [rewrite Esz; exact B6|]. destruct Gm as (_ & _ & Ev). rewrite <- Ev. rewrite eval_compose_V. cbn [V fold_right]. rewrite Z.lor_0_r.
+    unfold sval, fld. rewrite Q1, Z.shiftl_0_r, Z.sub_0_r, Q2. symmetry. apply wrap_small. destruct (wf_range (slot_e s) B1) as [_ R]. rewrite B6 in R. exact R.
   Qed.
 
   Theorem simp1_good e e' : wf e = true -> simp1 e = Ok e' -> good e e'.
   Proof.
-    intros W H. destruct e as [| | |op args|c a b|a lo hi| |]; try discriminate; try (inversion H; subst; apply good_refl; exact W).
+    intros W H. destruct e as [| | |op args|c a b|a lo hi|slots|]; try (simpl in W; discriminate); try (inversion H; subst; apply good_refl; exact W).
     - simpl in H. pose proof W as W'. simpl in W'. apply andb_true_iff in W' as [_ O].
       destruct (op_ok_inv _ _ O) as (a & r & _ & F & _). unfold frag_op in F.
       destruct (opk_of op) eqn:Ek; try discriminate;
@@ -1067,6 +1197,7 @@ Section Sound.
               | eapply (simp_op_assoc op _ args e'); [unfold aop_of; rewrite Ek; reflexivity | exact W | exact H] ].
     - simpl in H. inversion H; subst. apply simp_cond_good. exact W.
     - simpl in H. apply simp_slice_good; assumption.
+    - simpl in H. apply simp_compose_good; assumption.
   Qed.
   (** ** the traversal and the fixpoint loop *)
   Lemma mapM_good (f : expr -> res expr) l l' :
@@ -1105,9 +1236,41 @@ Section Sound.
     - rewrite !eval_op_node. rewrite Ev. f_equal. simpl. rewrite Sa. destruct (size a =? 0); [|reflexivity]. destruct r, r'; simpl in *; try discriminate; congruence.
   Qed.
 
+  (** a concatenation whose pieces are related pointwise (constants stay constants) *)
+  Definition slot_rel (s s' : slot) : Prop :=
+    good (slot_e s) (slot_e s') /\ slot_lo s' = slot_lo s /\ slot_hi s' = slot_hi s /\ (is_int (slot_e s) = true -> is_int (slot_e s') = true).
+  Lemma compose_node_good args args' : wf (ECompose args) = true -> Forall2 slot_rel args args' -> good (ECompose args) (ECompose args').
+  Proof.
+    intros W F. destruct (wf_compose_inv args W) as (A & Ne & Hs & Nd & (a0 & Ia0 & Z0) & Oc).
+    assert (Elo : map slot_lo args' = map slot_lo args) by (clear - F; induction F as [|s s' l l' R _ IH]; simpl; [reflexivity | destruct R as (_ & R1 & _); rewrite R1, IH; reflexivity]).
+    assert (Eocc : forall i, occ args' i = occ args i) by (intros i; clear - F; induction F as [|s s' l l' R _ IH]; simpl; [reflexivity | destruct R as (_ & R1 & R2 & _); rewrite R1, R2, IH; reflexivity]).
+    assert (Emax : forall m, fold_left (fun m a => Z.max m (slot_hi a)) args' m = fold_left (fun m a => Z.max m (slot_hi a)) args m)
+      by (clear - F; induction F as [|s s' l l' R _ IH]; intros m; simpl; [reflexivity | destruct R as (_ & _ & R2 & _); rewrite R2; apply IH]).
+    assert (EV : V rho mu iota args' = V rho mu iota args).
+    { clear - F. induction F as [|s s' l l' R _ IH]; [reflexivity|]. cbn [V fold_right]. fold (V rho mu iota l'). fold (V rho mu iota l). rewrite IH. f_equal.
+      destruct R as ((_ & _ & Ev) & R1 & R2 & _). unfold sval. rewrite R1, R2, Ev. reflexivity. }
+    assert (Hs' : forall s', In s' args' -> wf (slot_e s') = true /\ 0 <= slot_lo s' /\ slot_lo s' < slot_hi s' /\ slot_hi s' <= 64 /\ piece_shape (slot_e s') (slot_lo s') (slot_hi s') = true).
+    { clear - F Hs. induction F as [|s s' l l' R _ IH]; intros t It; [contradiction|]. destruct It as [<-|It]; [|apply IH; [intros u Iu; apply Hs; right; exact Iu | exact It]].
+      destruct (Hs s (or_introl eq_refl)) as (Ws & A1 & A2 & A3 & A4). destruct R as ((W' & Sz & _) & R1 & R2 & Ri). rewrite R1, R2. repeat split; try assumption.
+      rewrite piece_shape_alt in A4 |- *. destruct (is_int (slot_e s)) eqn:Io.
+      - rewrite (Ri eq_refl). apply Z.leb_le in A4. apply Z.leb_le. lia.
+      - apply Z.eqb_eq in A4. destruct (is_int (slot_e s')); [apply Z.leb_le | apply Z.eqb_eq]; lia. }
+    assert (Wc : wf (ECompose args') = true).
+    { apply wf_compose_intro; try assumption.
+      - intros E. subst args'. inversion F; subst. contradiction.
+      - rewrite Elo. exact Nd.
+      - clear - F Ia0 Z0. induction F as [|s s' l l' R _ IH]; [contradiction|]. destruct Ia0 as [->|Ia0]; [exists s'; split; [left; reflexivity | destruct R as (_ & R1 & _); lia]|].
+        destruct (IH Ia0) as (b & Ib & Zb). exists b. split; [right; exact Ib | exact Zb].
+      - intros i. rewrite Eocc. apply Oc. }
+    split; [exact Wc|]. split.
+    - rewrite (proj1 (wf_compose_size _ Wc)), (proj1 (wf_compose_size _ W)). unfold maxhi. apply Emax.
+    - rewrite !eval_compose_V. exact EV.
+  Qed.
+
   Section Frame.
     Variable cb : expr -> res expr.
     Hypothesis cb_good : forall x x', wf x = true -> cb x = Ok x' -> good x x'.
+    Hypothesis cb_int : forall sg w v x', cb (EInt sg w v) = Ok x' -> is_int x' = true.
 
     Lemma visit_good : forall e e', wf e = true -> visitM cb e = Ok e' -> good e e'.
     Proof.
@@ -1167,6 +1330,21 @@ Section Sound.
         destruct (expr_eqb a' e).
         + apply cb_good; assumption.
         + eapply good_trans; [exact G|]. apply cb_good; [apply G | exact HV].
+      - (* ECompose *)
+        destruct (wf_compose_inv _ W) as (_ & _ & Hs & _).
+        simpl in HV. destruct (mapM (fun s => do x <- visitM cb (slot_e s); Ok (x, slot_lo s, slot_hi s)) args) as [args'| |] eqn:Em; try discriminate. cbn [bind] in HV.
+        assert (F2 : Forall2 slot_rel args args').
+        { clear HV W. revert args' Em. induction H as [|s l Hs0 Hl IH]; intros args' Em; simpl in Em; [inversion Em; constructor|].
+          destruct (visitM cb (slot_e s)) as [x| |] eqn:Ex0; try discriminate. cbn [bind] in Em.
+          destruct (mapM (fun s => do x <- visitM cb (slot_e s); Ok (x, slot_lo s, slot_hi s)) l) as [l'| |] eqn:El; try discriminate. cbn [bind] in Em. inversion Em; subst.
+          constructor; [|apply IH; [intros u Iu; apply Hs; right; exact Iu | reflexivity]].
+          unfold slot_rel, slot_e at 2, slot_lo at 1, slot_hi at 1. cbn [fst snd].
+          split; [apply Hs0; [apply (Hs s); left; reflexivity | first [reflexivity | exact Ex0]]|]. split; [reflexivity|]. split; [reflexivity|].
+          intros Ii. destruct (slot_e s) as [sg w v| | | | | | |]; try discriminate. simpl in Ex0. apply (cb_int _ _ _ _ Ex0). }
+        pose proof (compose_node_good args args' W F2) as G.
+        destruct (all2 _ args args').
+        + apply cb_good; assumption.
+        + eapply good_trans; [exact G|]. apply cb_good; [apply G | exact HV].
     Qed.
 
   End Frame.
@@ -1184,11 +1362,15 @@ Section Sound.
       eapply good_trans; [exact G1|]. eapply good_trans; [exact G2|]. apply IH; [apply G2 | exact H].
   Qed.
 
+  Lemma loop_int rec_simp n sg w v x' : simp_loop rec_simp (S n) (EInt sg w v) = Ok x' -> is_int x' = true.
+  Proof. cbn [simp_loop simp1 bind]. rewrite eqb_refl. intros H. inversion H; subst. reflexivity. Qed.
+
   Theorem simp_good : forall fuel e e', wf e = true -> simp fuel e = Ok e' -> good e e'.
   Proof.
     induction fuel as [|f IH]; intros e e' W H; [simpl in H; discriminate|].
-    simpl in H. apply (visit_good (simp_loop (simp f) (S f))); [|exact W | exact H].
-    intros x x' Wx Hx. apply (loop_good (simp f) IH (S f)); assumption.
+    simpl in H. apply (visit_good (simp_loop (simp f) (S f))); [| |exact W | exact H].
+    - intros x x' Wx Hx. apply (loop_good (simp f) IH (S f)); assumption.
+    - intros sg w v x' Hx. apply loop_int in Hx. exact Hx.
   Qed.
 End Sound.
 
